@@ -1,7 +1,7 @@
 (* C13: statement-level apparatus on top of Spec/ConformSpec.v.  Definitions only.
      * how a signature of the bundled file is named: by the (1-based) line of p0f.fp it is written on;
      * the known classes of TRAFFIC on which the unchanged extractors leave the p0f rendering (C03's K1, K4, K5, K7)
-       plus the C13 class KV6 (version-specific quirks are not ignored for the other IP version);
+       (the C13 class KV6, version-specific quirks not ignored for the other IP version, was repaired by ecf5f15);
      * `live_tcp_b`: a decidable condition on a TCP signature under which every conforming packet outside the known
        classes is observed as an instance of the signature (soundness: Proofs/ReachProofs.v);
      * the documented dead / undecided lists of the bundled file (Spec/ReachLists.v holds the literal lists; the proofs
@@ -43,11 +43,6 @@ Definition with_lines {S} (lines : list N) (tbl : list (label * list S)) : list 
   combine lines (positions tbl).
 
 (* ---------------- known classes of TCP traffic ---------------- *)
-(* KV6: the signature lists a quirk that the field definitions ignore for the packet's IP version (df, id+, id-, 0+
-   on an IPv6 packet; flow on an IPv4 packet).  The matcher compares the quirk lists literally, so the signature
-   rejects every such packet. *)
-Definition kv6 (s : tcp_sig) (g : segment) : bool :=
-  negb (forallb (quirk_applies (seg_ver g)) (t_quirks s)).
 (* C03's classes that change the SIGNATURE part of the report (K2 concerns the MTU only, K3 non-handshake segments):
    K1 bytes after end-of-options, K4 quirk order/duplicates (stated on the list the model produces), K5 malformed
    options (the NS-bit part was repaired by 9733023), K7 a window field above 65535 (never true of a decoded segment;
@@ -55,7 +50,7 @@ Definition kv6 (s : tcp_sig) (g : segment) : bool :=
 Definition known_c03 (g : segment) (model_quirks : list quirk) : bool :=
   K1 g || K4_of model_quirks || K5 g || K7 g.
 Definition known_tcp13 (s : tcp_sig) (g : segment) (model_quirks : list quirk) : bool :=
-  known_c03 g model_quirks || kv6 s g.
+  known_c03 g model_quirks.      (* the class KV6 (version-specific quirks not ignored) was repaired by ecf5f15 *)
 
 (* the end-to-end model on C13's traffic type *)
 Definition tcp_out_of (db : database) (x : tcp_traffic) : res tcp_out :=
@@ -145,10 +140,9 @@ Definition layout_live (l : list tcp_option) : bool :=
   forallb (fun o => match o with OEol n => n =? 0 | _ => true end) l.
 (* quirks written in the canonical order, without repetition (the matcher compares lists) *)
 Definition quirks_live (q : list quirk) : bool := strictly_increasing (map quirk_idx q).
-(* IP versions of conforming packets outside KV6 *)
+(* IP versions of conforming packets *)
 Definition live_versions (s : tcp_sig) : list ip_version :=
-  filter (fun v => forallb (quirk_applies v) (t_quirks s))
-         (match t_version s with IpAny => [IpV4; IpV6] | v => [v] end).
+  match t_version s with IpAny => [IpV4; IpV6] | v => [v] end.
 Definition layout_ts (l : list tcp_option) : bool := existsb (tcp_option_eqb OTS) l.
 (* the window form the p0f rendering gives to every conforming packet is the signature's own, or one the matcher
    equates with it (raw value against mss*k) *)
